@@ -174,9 +174,15 @@ class World(object):
                             shuffle_listdir=self.knobs.get("shuffle_listdir", True),
                             **(run_kwargs or {}))
         self.run.short_writes = bool(self.knobs.get("short_writes", False))
+        import tempfile
+        with seam.passthrough():
+            os.makedirs(self.run.exttmp, exist_ok=True)
+        self._prev_tempdir = tempfile.tempdir
+        tempfile.tempdir = self.run.exttmp
         self.mp = bool(self.knobs.get("mp", False))
         self.store = None
         self.store2 = None
+        self._oms = {}  # ObjectMetadata objects the caller keeps and passes again
         self._write_inputs()
 
     # -- files the caller supplies -------------------------------------------------------------
@@ -285,6 +291,9 @@ class World(object):
                        self.contents, self.pids, self.formats, self.mcontents)
 
     def cleanup(self):
+        import tempfile
+        if tempfile.tempdir == self.run.exttmp:
+            tempfile.tempdir = self._prev_tempdir
         if self.own_sandbox:
             with seam.passthrough():
                 shutil.rmtree(self.sandbox, ignore_errors=True)
@@ -356,6 +365,7 @@ class World(object):
                     r = st.store_object(pid, arg, op.get("add"), checksum, op.get("ckalgo"), size)
                 out = ("ok", {"pid": r.pid, "cid": r.cid, "size": r.obj_size,
                               "digests": dict(r.hex_digests)})
+                self._oms[("ret", op["c"])] = r
             elif name == "tag":
                 st.tag_object(self.pids[op["pid"]], self._m().resolve_cid(op["cid"]))
                 out = ("ok", "none")
@@ -370,6 +380,11 @@ class World(object):
                 if op.get("meta_has_algo") and canon:
                     dm[canon] = M.digest(canon, data)
                 om = fhs.ObjectMetadata("HashStoreNoPid", mdl.cid_of(data), len(data), dm)
+                how = op.get("reuse_om")
+                if how == "inst":
+                    om = self._oms.setdefault(("inst", op["c"], bool(op.get("meta_has_algo"))), om)
+                elif how == "ret" and ("ret", op["c"]) in self._oms:
+                    om = self._oms[("ret", op["c"])]
                 st.delete_if_invalid_object(om, mdl.checksum_arg(data, op["ck"], op["ckalgo"]),
                                             op["ckalgo"], mdl.size_arg(data, op.get("size")))
                 out = ("ok", "none")
